@@ -419,6 +419,21 @@ def loop_body_effects(crate, fn, loop, T):
                     if b and b['kind'] == 'let':
                         hid = rl.get('hid')
                 out.append(('mutates-outer', '%s(%s: %s)' % (name, pp(a, maxlen=40), ta[:60]), n, hid))
+    # a local closure defined outside the loop and called inside it runs its body once per iteration: its effects on the
+    # state it captured are effects of the loop body
+    if not loop.get('_closure_body'):
+        seen_clo = set()
+        for n in walk(loop['body']):
+            if n.get('k') == 'Call' and (n.get('f') or {}).get('k') == 'Path' and (n.get('f') or {}).get('res') == 'local':
+                b = bind.get(n['f'].get('hid'))
+                init = H.strip_refs(b['node'].get('init') or {}) if b is not None and b['kind'] == 'let' else {}
+                if init.get('k') == 'Closure' and id(init) not in seen_clo and not any(x is init for x in walk(loop['body'])):
+                    seen_clo.add(id(init))
+                    fake = {'pat': {'k': 'PTup', 'subs': init['params']}, 'body': init['body'], '_closure_body': True}
+                    for kind, what, node, hid in loop_body_effects(crate, fn, fake, T):
+                        if kind == 'early-exit':
+                            continue   # a return inside the closure only leaves the closure
+                        out.append((kind, '%s (in closure `%s` called from the loop)' % (what, n['f'].get('name')), n, hid))
     # an outer map that is written by blind inserts only is order-insensitive; mixing inserts with reads or in-place
     # mutation of the same map inside the loop makes later iterations see earlier ones (read-modify-write): order-sensitive
     by_target = {}
@@ -707,3 +722,36 @@ def run(ck):
             ck.ob('R8.5', 'static|%s' % short(fn['path']), ok, crate.loc(fn['body']),
                   'static of type %s (immutable lazy: ok)' % t[:100] if ok else 'static with possibly mutable type %s' % t[:120])
     ck.floor('R8.5', n_static, 1, 'statics inspected')
+
+    # R8.7 nothing is carried from one document to the next: the per-source loops of the CLI share no mutable state
+    ck.rule('R8.7', 'translating a document does not depend on the documents translated before it in the same process')
+    B = F.bin
+    n_loops7 = 0
+
+    class _NoTaint:
+        def coll_type(self, e):
+            return None
+
+        def t(self, e):
+            return False
+    for fname in ('generate_ui', 'preview'):
+        fn = B.fn(fname)
+        if fn is None:
+            continue
+        for lp in (n for n in walk(fn['body']) if n.get('k') == 'For'):
+            if not any(H.is_call_to(c, 'generate_ui_file', 'preview_file') for c in H.calls_in(lp['body'])):
+                continue
+            n_loops7 += 1
+            ck.analysed('bin::' + fname)
+            effs = loop_body_effects(B, fn, lp, _NoTaint())
+            bad = []
+            for kind, what, node, hid in effs:
+                if kind == 'early-exit':
+                    continue   # C18 R18.5 judges early exits
+                if kind == 'assign-outer' and node.get('k') == 'Assign' and isinstance(H.lit_value(node['r']), bool):
+                    continue   # a sticky flag set to a constant: no data flows from the document
+                bad.append('%s %s' % (kind, what))
+            ck.ob('R8.7', 'per-source-loop-shares-no-mutable-state|%s' % fname, not bad, B.loc(lp),
+                  'the loop body only reads shared context (&ctx, &docs_cache) and sets constant flags' if not bad else
+                  'state declared outside the loop is mutated by the loop body (%s): what is written for one source can depend on the sources processed before it' % '; '.join(bad[:3]), fn='bin::' + fname)
+    ck.floor('R8.7', n_loops7, 1, 'per-source loops in the CLI')
